@@ -1,7 +1,66 @@
 import Mutagen.Driver.Util
+import Mutagen.Model.Prompting
 namespace Mutagen.Driver.C32
+open Mutagen.Driver Mutagen.Model.Prompting
 
-/-- Model-side handler for one line of the C32 correspondence stream. -/
-def handle (_line : String) : String := "unimplemented"
+/-!
+Lines:
+
+* `m <hex prompt>` → `echo` | `secret` | `masked` (`determineResponseMode`);
+* `t <threads> <events>` — trace validation. `<threads>`: comma-separated
+  programs, thread `k` is the `k`-th: `reg:<id>`, `unreg:<id>`,
+  `msg:<id>:<fail>`, `prompt:<id>:<fail>`. `<events>`: comma-separated observed
+  events in log order: `i<k>` thread `k` invokes its registry function, `s<k>` /
+  `e<k>` the prompter's method starts / ends inside thread `k`'s call,
+  `r<k>:<result>` the registry function returns (`ok`, `nf` not found, `af`
+  unable to acquire, `ce` prompter error, `pn` panic, `col` collision, `empty`).
+  Output: `accept <identifiers still registered, sorted>` when the model can
+  produce the trace, else `reject@<index of the first impossible event>`.
+-/
+
+def parseOp (s : String) : Option Op :=
+  match s.splitOn ":" with
+  | ["reg", id] => some (.reg id)
+  | ["unreg", id] => some (.unreg id)
+  | ["msg", id, f] => some (.call id false (f == "1"))
+  | ["prompt", id, f] => some (.call id true (f == "1"))
+  | _ => none
+
+def parseRes : String → Option Res
+  | "ok" => some .ok | "nf" => some .notFound | "af" => some .acquireFailed | "ce" => some .callError
+  | "pn" => some .panic | "col" => some .collision | "empty" => some .emptyId | _ => none
+
+def parseEvent (s : String) : Option Event :=
+  match s.toList with
+  | 'i' :: k => (String.ofList k).toNat?.map .invoke
+  | 's' :: k => (String.ofList k).toNat?.map .callStart
+  | 'e' :: k => (String.ofList k).toNat?.map .callEnd
+  | 'r' :: rest =>
+    match (String.ofList rest).splitOn ":" with
+    | [k, r] => do pure (.ret (← k.toNat?) (← parseRes r))
+    | _ => none
+  | _ => none
+
+def showMode : ResponseMode → String
+  | .secret => "secret" | .masked => "masked" | .echo => "echo"
+
+def showRegistry (s : State) : String :=
+  let ids := (s.registry.map (·.1)).toArray.qsort (· < ·) |>.toList
+  if ids.isEmpty then "-" else ",".intercalate ids
+
+def handle (line : String) : String :=
+  match fields line with
+  | ["m", h] =>
+    match decHex h with
+    | some p => showMode (determineResponseMode p)
+    | none => "bad-op"
+  | ["t", threads, events] =>
+    match (listField threads).mapM parseOp, (listField events).mapM parseEvent with
+    | some ops, some evs =>
+      match accepts ops evs with
+      | .error k => s!"reject@{k}"
+      | .ok finals => "accept " ++ "/".intercalate ((finals.map showRegistry).eraseDups)
+    | _, _ => "bad-op"
+  | _ => "bad-op"
 
 end Mutagen.Driver.C32
